@@ -11,9 +11,11 @@ Local Open Scope nat_scope.
    (b) lane bound: if no node is taller than the number of levels searched, the walk on lane i passes only nodes of
        height exactly i+1, all inside one gap of lane i+1, hence
        cost <= sum_{i < levels} (1 + maxrun i)  =  runs_bound levels,
-       maxrun i = the longest run of height-(i+1) nodes between consecutive taller nodes. (For independent
-       geometric(1/4) heights a run has expected length < 4/3 and levels ~ log4 n: the textbook O(log n); that
-       probabilistic step is NOT formalised.) *)
+       maxrun i = the longest run of height-(i+1) nodes between consecutive taller nodes: a bound that depends on
+       the structure only and holds for EVERY searched key. (For independent geometric(1/4) heights the run a given
+       search meets on a lane has expected length 3 and levels ~ log4 n, the textbook expected O(log n) per search;
+       the longest run is O(log n) with high probability, so runs_bound is O(log^2 n) w.h.p. These probabilistic
+       steps are NOT formalised.) *)
 Theorem C17_skip_search_cost : forall (N : Type) (height : N -> nat) (adv : N -> bool) (cadv : N -> nat)
     (xeq eq : N -> bool) (ceq : N -> nat),
   (forall y, cadv y <= 1) -> (forall y, ceq y <= 1) -> forall levels x l found,
